@@ -372,7 +372,6 @@ def agg_check(ops):
     import copy
     vals = copy.deepcopy(AGG_INIT)
     m, h, names = agg_build(vals)
-    fs0 = {nm: m.converters[nm].function_string for nm in names if nm.startswith("agg ")}
     for op in ops:
         agg_apply(m, h, vals, op)
     a = agg_read(m, names)
@@ -383,9 +382,6 @@ def agg_check(ops):
             nm = key[0]
             return {"element": nm, "k": key[1], "after_history": a[key], "fresh_model": b[key],
                     "function_string": m.equations and (m.converters[nm].function_string if nm in m.converters else None)}
-    for nm, f0 in fs0.items():
-        if m.converters[nm].function_string != f0:
-            return {"element": nm, "function_string_before": f0, "function_string_after": m.converters[nm].function_string}
     return None
 
 
@@ -465,15 +461,17 @@ def probe_reset_clears_all_stores():
         m = mk()
         f(m)
         left = [a for a in names if holds_values(getattr(m, a))]
-        report[pn] = "all empty" if not left else "values left in " + ",".join(left)
-        ok = ok and not left
-    m = mk()
-    sc = SimulationScenario({}, "sc", m, "sm")
-    sc.constants = {"c": 5.0}
-    sc.setup_constants(); sc.reset_cache()
-    v = m.evaluate_equation("k", START)
-    report["k(t_0) after scenario constant c=5 + scenario reset"] = v
-    return (ok and v == 15.0), report
+        report[pn] = "all empty" if not left else "values left in " + ",".join(left)      # informative only
+        # the fact is behavioural: after the raw write `equations['c'] = 5` (what scenario.setup_constants does) and this
+        # reset path, a dependent read at the same times as before must see the new definition
+        m = mk()
+        if pn != "Model.add_equation":
+            m.equations["c"] = lambda t: 5.0
+        f(m)
+        got = [m.evaluate_equation("k", t) for t in (START, START + DT, START)]
+        report[pn + ": k after c := 5"] = got
+        ok = ok and got == [15.0, 15.0, 15.0]
+    return ok, report
 
 
 def probe_operands_through_memo():
@@ -492,8 +490,9 @@ def probe_operands_through_memo():
     m.constant("w[0]").equation = 3.0
     c.equation = 5.0
     after = (m.evaluate_equation("x", START), float(m.evaluate_equation("y", START)), m.evaluate_equation("k", START))
-    return (fs == (x.function_string, y.function_string, k.function_string) and before[0] == 3.0 and after == (8.0, 4.0, 15.0)
-            and all("memoize('w[0]'" in f and "memoize('w[1]'" in f for f in fs[:2]))
+    # behavioural: the users' values follow the re-definitions (whether the code re-generates the users' function strings
+    # or reads the operands through the memo is its own business; layout of the text — quotes, spaces — even more so)
+    return before[0] == 3.0 and after == (8.0, 4.0, 15.0)
 
 
 # ------------------------------------------------------------------ (a3) through the bptk object (wave 7)
@@ -945,13 +944,21 @@ def run_seq(chk, facts):
         for ln in r.new_lines():
             req.append(ln); real.append("ok")
         hl = history_lines(ops, kinds)
-        for op, lns in hl:
+        for hi_, (op, lns) in enumerate(hl):
             v = r.apply(op)
             for ln in lns:
                 req.append(ln); real.append(v if op[0] == "eval" else "ok")
             kinds_hist[op[0]] = kinds_hist.get(op[0], 0) + 1
             if op[0] == "eval":
-                req.append("memo"); real.append(r.memo())
+                mm_ = r.memo()
+                req.append("memo"); real.append(mm_)
+                # the memo invariant on the REAL memo: every entry the code keeps is the fresh value of its key (an
+                # invalidation policy may keep more entries than the model's clear-everything policy, never other values)
+                if settled([o for o, _ in hl[:hi_ + 1]]):
+                    for ent in (mm_.split(",") if mm_ else []):
+                        key_, val_ = ent.split("=")
+                        n_, k_ = key_.split(".")
+                        req.append("peek %s %s" % (n_, k_)); real.append(val_)
         for n in range(nall):
             for k in range(KMAX + 1):
                 req.append("eval %d %d" % (n, k)); real.append(r.value(n, k))
@@ -976,7 +983,13 @@ def run_seq(chk, facts):
     chk.notes["points_unsettled"] = unsettled
     chk.cov["seq_exhaustive_histories"] = n_exh
     model = drive("C08", req)
-    diff = next((i for i, (a, b) in enumerate(zip(model, real)) if a != b), None)
+    def same(i, a, b):
+        if a == b:
+            return True
+        if req[i] == "memo":          # the code may keep MORE entries than the clear-everything model (each checked by `peek`)
+            return set(x for x in a.split(",") if x) <= set(x for x in b.split(",") if x)
+        return False
+    diff = next((i for i, (a, b) in enumerate(zip(model, real)) if not same(i, a, b)), None)
     if diff is None and len(model) != len(real):
         diff = min(len(model), len(real))
     return cases, stale, diff, req, model, real, L
@@ -1089,15 +1102,16 @@ class Sched:
         elif ev == "return":
             st = self.stacks[t]
             st.pop()
-            loc = frame.f_locals
-            try:
-                key = (self.idof(loc["equation"]), int(round((loc[self.argname] - START) / DT)))
-            except Exception:
-                key = None
-            cons = None
-            if st:
-                l2 = st[-1].f_locals
-                cons = (self.idof(l2["equation"]), int(round((l2[self.argname] - START) / DT)))
+            # (element, grid index) of this call and of the calling memoize frame, read from the two PARAMETERS of memoize
+            # (whatever they and the locals are called); a trace function must never raise: Python would switch tracing off
+            def key_of(fr):
+                try:
+                    pn = fr.f_code.co_varnames[1:3]
+                    return (self.idof(fr.f_locals[pn[0]]), int(round((float(fr.f_locals[pn[1]]) - START) / DT)))
+                except Exception:
+                    return None
+            key = key_of(frame)
+            cons = key_of(st[-1]) if st else None
             self.handouts.append((t, cons, key, None if arg is None else fbits(arg)))
         return self.memo_trace
 
@@ -1514,8 +1528,10 @@ def _run(chk, scratch):
                         f"(line event -> thread) {pre}: {a}",
                         {"kind": "schedule", "system": system[0], "preempt": {str(k): v for k, v in pre.items()}, "observed": a})
     elif not facts["first"]:
-        chk.add_finding("memoize-race-stochastic", "probe: a second miss of one stochastic key while the first is being computed returns a different value",
-                        {"kind": "schedule", "system": "race2", "preempt": {"3": 1}})
+        chk.add_finding("memoize-race-stochastic", "probe (single-threaded emulation of two overlapping misses of one stochastic key): the second miss "
+                        "returns a different value, but no forced schedule of the real worker threads showed two values for one key",
+                        {"theorem": "Bptk.C08.Gen: cfg.memoizeFirstStoreWins = false (C08_witness_race_full)", "kind": "schedule", "system": "race2",
+                         "preempt": {"3": 1}}, found_input=False)
     if xamb is not None:
         xs, pre, a = xamb
         chk.add_finding("memoize-race-stochastic-xmile",
@@ -1523,9 +1539,9 @@ def _run(chk, scratch):
                         f"pre-emptions (line event of the generated memoize -> thread) {pre}: {a}",
                         {"kind": "xschedule", "system": xs[0], "preempt": {str(k): v for k, v in pre.items()}, "observed": a})
     elif not facts["xfirst"]:
-        chk.add_finding("memoize-race-stochastic-xmile", "probe: in the generated memoize a second miss of one stochastic key while the first "
-                        "is being computed returns a different value (check-compute-store with plain assignment)",
-                        {"kind": "xschedule", "system": "xrace2", "preempt": {"6": 1}})
+        chk.add_finding("memoize-race-stochastic-xmile", "probe (single-threaded emulation): in the generated memoize a second miss of one stochastic key "
+                        "while the first is being computed returns a different value, but no forced schedule showed two values for one key",
+                        {"theorem": "Bptk.C08.Gen.violatedX", "kind": "xschedule", "system": "xrace2", "preempt": {"6": 1}}, found_input=False)
     if aggbad is not None:
         ops_, mm_ = aggbad
         small = shrink(ops_, lambda c_: agg_check(c_) is not None)
@@ -1535,8 +1551,14 @@ def _run(chk, scratch):
                         "(w = constant vector, m = constant matrix 'mod.m', ov = converter vector 'o v'; 'agg <kind> <array>' = converter defined as that aggregate)",
                         {"kind": "agg", "ops": small, "mismatch": mm_})
     elif not facts["operands"]:
-        chk.add_finding("stale-aggregate-operand", "probe: x = w.arr_sum(); w[1] = 5.0: the function string of x changed or its value did not follow",
-                        {"kind": "agg", "ops": [("eval", "agg sum w", 0), ("wset", 1, 7.0)]})
+        chk.add_finding("stale-aggregate-operand", "probe: x = w.arr_sum(), y = w.arr_mean(), k = c*3; members of w and c re-defined: the values of x, y, k "
+                        "did not follow, but no history of the aggregate family differed from a freshly built model",
+                        {"theorem": "Bptk.C08.Gen: cfg.operandsThroughMemo = false (C08_witness_baked_full)", "kind": "agg",
+                         "ops": [("eval", "agg sum w", 0), ("wset", 1, 7.0)]}, found_input=False)
+    if not facts["stores"] and not any(f.found_input for f in chk.findings):
+        chk.add_finding("stale-after-scenario-reset", "probe: after a raw write to model.equations and one of the reset paths a dependent read still sees the old "
+                        f"definition ({chk.notes.get('stores_consulted_by_memoize')}), but no generated history or bptk script differed from a fresh model",
+                        {"theorem": "Bptk.C08.Gen: cfg.resetClearsAllStores = false (C08_witness_second_store_full)"}, found_input=False)
     if bpbad is not None:
         script, pre, bad = bpbad
         small = shrink(script, lambda c_: bp_run(c_, pre) is not None)
